@@ -16,7 +16,7 @@ def run(ctx):
                 '(values of existing objects incl. private ones, absent attributes, wrong-sized and empty values) x five session states x random batch-size sequences (0,1,2,3,5,40); '
                 'the multiset of returned handles, mapped back through the unique tag, must equal model.visible(session) ∩ matches(template); '
                 'one evaluation = one step/search; distinct = (session state, template size, answer class empty/some/all, batch sizes used)')
-    run_walks(ctx, {'C19'}, ctx.q(200, 3000), ctx.q(80, 120), weights=W, backends=ctx.q(('file', 'db'), ('file', 'db')), monitors=(), hook=hook)
+    run_walks(ctx, {'C19'}, ctx.q(480, 4000), ctx.q(90, 120), weights=W, backends=ctx.q(('file', 'db'), ('file', 'db')), monitors=(), hook=hook)
     ctx.extra['searches'] = ctx.extra.get('walk_finds', 0)
     ctx.assumptions += ['CK_BBOOL template values are 0/1; attributes restricted to boolean / ulong / byte-string kinds as the quantifier says', 'defaults of attributes not given at creation are read back once through C_GetAttributeValue']
 if __name__ == '__main__': main('C19', run, min_evaluations=2000, min_distinct=40)
